@@ -259,7 +259,17 @@ func execOp(op pOp, r *rInput) (res string) {
 			ks = append(ks, k+"="+detBytes(td))
 		}
 		sort.Strings(ks)
-		return "model: " + detBytes(m) + " ext: " + strings.Join(ks, ",") + " extnil=" + strconv.FormatBool(ext == nil)
+		out := "model: " + detBytes(m) + " ext: " + strings.Join(ks, ",") + " extnil=" + strconv.FormatBool(ext == nil)
+		if scribbleResults {
+			scribbleModel(m)
+			for _, td := range ext {
+				scribbleProto(td)
+			}
+			if ext != nil {
+				ext[scribbleText()] = &openfgav1.TypeDefinition{Type: scribbleText()}
+			}
+		}
+		return out
 	case "json2dsl":
 		s, err := transformer.TransformJSONStringToDSL(r.json, opts...)
 		if err != nil {
